@@ -146,6 +146,9 @@ def obs_class(case):
 SAN_RE = re.compile(rb'ERROR: (?:Address|Leak|Undefined\w*)Sanitizer: ([\w-]+)|([^\n:]+:\d+:\d+): runtime error: ([^\n]*)')
 
 
+EXCLUDED = {}
+
+
 def judge(case, sanitizer=False):
     """the property itself, on one run -> list of (key, desc, observed, required)"""
     st, out, err = case.result
@@ -167,6 +170,12 @@ def judge(case, sanitizer=False):
                 where = os.path.basename(m.group(2).decode('latin-1')).split(':')[0]
                 kind = 'ub-' + re.sub(r'[^a-z]+', '-', m.group(3).decode('latin-1').lower())[:40].strip('-') + '@' + where
             v = [x for x in v if not x[0].startswith('signal:SIGABRT')]
+            if m.group(3) and m.group(3).startswith(b'signed integer overflow') and where == 'value.cc':
+                # overflow of the C long inside an INTEGER value: undefined behaviour that DESIGN.md
+                # section 12 excludes from every statement and generator (the release build wraps
+                # around); it is counted, not reported
+                EXCLUDED['integer-overflow-in-value'] = EXCLUDED.get('integer-overflow-in-value', 0) + 1
+                return [x for x in v if not x[0].startswith('error-with-status-0')]
             v.append(('sanitizer:%s:%s' % (kind, c), 'sanitizer report: ' + err[m.start():m.start() + 300].decode('latin-1'),
                       kind, 'no sanitizer report'))
     return v
@@ -1815,6 +1824,9 @@ def sanitizer_tier(ctx, res, sites):
     res.evaluations += sub.evaluations
     res.count('sanitizer-runs', sub.evaluations)
     res.extra['sanitizer_wall_s'] = round(time.time() - t0, 1)
+    res.extra['sanitizer_reports_excluded'] = dict(EXCLUDED)
+    if EXCLUDED:
+        res.notes.append('UBSan reports of long overflow inside INTEGER values (value.cc), excluded by DESIGN.md section 12: %s' % dict(EXCLUDED))
 
 
 def nesting_light(ctx, res, binary, env):
@@ -1865,7 +1877,7 @@ def run(ctx, light=False):
               ('query_keywords', lambda: query_keywords(ctx, res)), ('rule_predicates', lambda: rule_predicates(ctx, res)),
               ('commodity_values', lambda: commodity_values(ctx, res)), ('repetition', lambda: repetition(ctx, res)), ('early_options', lambda: early_options(ctx, res)),
               ('function_arguments', lambda: function_arguments(ctx, res)),
-              ('mutation', lambda: mutation(ctx, res, ctx.scale(6000, 16000)))]
+              ('mutation', lambda: mutation(ctx, res, ctx.scale(8000, 16000)))]
     if ctx.tier == 'thorough' and not light:
         phases.append(('sanitizer', lambda: sanitizer_tier(ctx, res, sites)))
     res.extra['phase_wall_s'] = {}
